@@ -4,7 +4,7 @@ Part A (in-process): harness/clidrv with KESTREL_VERIF_DRIVER=1 against the Gall
 coq/Run/RunKeyring.v (Model/KeyringText.v, Model/Keyring.v, Spec/Base64.v), plus direct oracles.
 Part B (real processes): the clidrv binary run as the kestrel CLI; direct oracles only, with a
 `model_expect(world, argv)` hook for a future CLI model."""
-import base64, collections, hashlib, itertools, os, shutil, subprocess, tempfile
+import base64, collections, hashlib, itertools, os, shutil, subprocess, tempfile, time
 from concurrent.futures import ThreadPoolExecutor
 
 import vlib
@@ -2476,6 +2476,145 @@ def nonutf8_password_checks(ctx, w, scope, locked=None):
     ctx.evaluations += len(jobs)
 
 
+# =========================================================================== output locations (C12 targets, C13 whole-tree snapshots)
+def kvc_tree_snapshot(root):
+    """every entry below root, nothing followed: relative path -> ('dir',) | ('file', size, sha256) | ('symlink', target) |
+    ('fifo',) | ('other', mode).  Times and inode numbers are NOT part of it (the properties speak about existence and bytes)."""
+    import stat as _st
+    snap = {}
+    for dp, dns, fns in os.walk(root, followlinks=False):
+        for n in dns + fns:
+            p = os.path.join(dp, n)
+            rel = os.path.relpath(p, root)
+            try:
+                st = os.lstat(p)
+            except OSError:
+                continue
+            if _st.S_ISLNK(st.st_mode):
+                snap[rel] = ("symlink", os.readlink(p))
+            elif _st.S_ISDIR(st.st_mode):
+                snap[rel] = ("dir",)
+            elif _st.S_ISREG(st.st_mode):
+                with open(p, "rb") as f:
+                    data = f.read()
+                snap[rel] = ("file", len(data), hashlib.sha256(data).hexdigest())
+            elif _st.S_ISFIFO(st.st_mode):
+                snap[rel] = ("fifo",)
+            else:
+                snap[rel] = ("other", oct(st.st_mode))
+    return snap
+
+
+def kvc_tree_diff(before, after):
+    """human-readable differences between two snapshots (empty list = identical)"""
+    out = []
+    for k in sorted(set(before) | set(after)):
+        b, a = before.get(k), after.get(k)
+        if b == a:
+            continue
+        show = lambda e: "%s%s" % (e[0], "" if len(e) == 1 else " " + " ".join(str(x)[:16] for x in e[1:]))
+        if b is None:
+            out.append("CREATED %s (%s)" % (k, show(a)))
+        elif a is None:
+            out.append("REMOVED %s (was %s)" % (k, show(b)))
+        else:
+            out.append("CHANGED %s: %s -> %s" % (k, show(b), show(a)))
+    return out
+
+
+def kvc_drain(fd, done, chunks, settle=0.0):
+    """reader of a FIFO / pty master opened non-blocking: takes everything until `done` is set and nothing is left (for a
+    terminal, whose data is handed to the master side asynchronously: until nothing has come for `settle` seconds)"""
+    import select, time
+    quiet_since = None
+    while True:
+        got = False
+        try:
+            r, _, _ = select.select([fd], [], [], 0.05)
+        except (OSError, ValueError):
+            break
+        if r:
+            try:
+                b = os.read(fd, 1 << 16)
+            except BlockingIOError:
+                b = None
+            except OSError:
+                b = b""
+            if b:
+                chunks.append(b)
+                got = True
+            elif not done.is_set():
+                time.sleep(0.005)          # end-of-file while no writer has the FIFO open (yet)
+        if got:
+            quiet_since = None
+        elif done.is_set():
+            quiet_since = quiet_since or time.time()
+            if time.time() - quiet_since >= settle:
+                break
+
+
+def kvc_run(w, argv, env=None, stdin=None, cwd=None, timeout=120, stdout="pipe", drain_fd=None, new_session=True, settle=0.0):
+    """like World.run, with the working directory (and HOME) of the caller's choice and stdout wired as asked:
+    'pipe' (captured) | an open file object.  stdin: None (= /dev/null) | bytes | ('file', name in the world's directory).
+    drain_fd: a non-blocking descriptor (read end of a FIFO, pty master) emptied concurrently -> third result.
+    Returns (Run, bytes drained from drain_fd)"""
+    import threading
+    cwd = cwd or w.dir
+    e = {"PATH": "/usr/bin:/bin", "HOME": cwd, "LANG": "C.UTF-8"}
+    if env:
+        e.update(env)
+    fh = None
+    data = None
+    if stdin is None:
+        sin = subprocess.DEVNULL
+    elif isinstance(stdin, tuple):
+        fh = open(os.path.join(w.dir, stdin[1]), "rb")
+        sin = fh
+    else:
+        sin, data = subprocess.PIPE, stdin
+    chunks, done, th = [], threading.Event(), None
+    if drain_fd is not None:
+        th = threading.Thread(target=kvc_drain, args=(drain_fd, done, chunks, settle), daemon=True)
+        th.start()
+    out, err, rc = b"", b"", 125
+    try:
+        p = subprocess.Popen([w.bin] + list(argv), env=e, stdin=sin, stdout=subprocess.PIPE if stdout == "pipe" else stdout,
+                             stderr=subprocess.PIPE, start_new_session=new_session, cwd=cwd)
+        try:
+            out, err = p.communicate(input=data, timeout=timeout)
+            rc = p.returncode
+        except subprocess.TimeoutExpired:
+            p.kill()
+            out, err = p.communicate()
+            rc, err = 124, (err or b"") + b"\n[timeout]"
+    finally:
+        if fh:
+            fh.close()
+        done.set()
+        if th:
+            th.join(timeout=30)
+    w.nruns += 1
+    r = Run(list(argv), dict(env or {}), ("<" + stdin[1]) if isinstance(stdin, tuple) else stdin, rc, out or b"", err or b"")
+    return r, b"".join(chunks)
+
+
+def kvc_link_inputs(w, d, argv, env):
+    """make the world's files a run names (arguments, option values, variables) available under the same names in directory d
+    (hard links: the run's directory holds only what the run needs, so that a whole-tree snapshot stays small)"""
+    toks = []
+    for a in list(argv) + list((env or {}).values()):
+        if isinstance(a, str):
+            toks.append(a)
+            if "=" in a:
+                toks.append(a.split("=", 1)[1])
+    for t in toks:
+        if t and "/" not in t and os.path.isfile(w.p(t)) and not os.path.lexists(os.path.join(d, t)):
+            try:
+                os.link(w.p(t), os.path.join(d, t))
+            except OSError:
+                shutil.copyfile(w.p(t), os.path.join(d, t))
+
+
 # =========================================================================== C12
 class C12(ProcProp):
     id = "C12"
@@ -2489,7 +2628,12 @@ class C12(ProcProp):
             "reader as control; successful runs with "
             "-o onto an absent path and onto an existing file (file bytes must equal the output, also for the empty plaintext); encrypt / password encrypt over the same wirings with an injected "
             "random stream (byte-identical output) and with real randomness, each decrypted; quick = base wiring + 20 random "
-            "wirings per (input, keyring) group, thorough = all 64; non-trivial = every run")
+            "wirings per (input, keyring) group, thorough = all 64; output targets: 17 operations (succeeding and failing, one and two "
+            "chunks, empty) x 17 kinds of target {new / existing / longer existing regular file, absolute path, sub-directory, /dev/null, "
+            "/dev/stdout and /proc/self/fd/1 on a pipe, FIFO with a reader, plain stdout pipe, stdout redirected to / appending to a file, "
+            "-o /dev/stdout with stdout redirected to a file, symbolic link to an absent / existing file / to /dev/null, pseudo-terminal "
+            "in raw mode}: exit status, stderr and the bytes that arrive are those of the run writing a new regular file; 13 of these "
+            "(quick) against the CLI model evaluated on the plain wiring; non-trivial = every run")
     assumptions = ["the full wiring matrix is judged by direct oracles; the CLI model (Model/CliGlue.v::real_cli_main) is compared with the "
                    "real process on small worlds (150-byte plaintext, 4 wirings x 4 inputs, encrypt / password modes, help, version) and the "
                    "real argument parser with Model/CliParse.v on exhaustive short argument vectors",
@@ -2608,6 +2752,9 @@ class C12(ProcProp):
             self.judge_all(ctx, w, jobs, res)
             pipe_delivery_checks(ctx, w)
             nonutf8_password_checks(ctx, w, "files")
+            t_tg = time.time()
+            self.targets_part(ctx, w)
+            ctx.distribution["seconds:output-targets"] = round(time.time() - t_tg, 1)
             ctx.evaluations += w.nruns
             self.count(ctx, "proc:runs", w.nruns)
         finally:
@@ -2615,7 +2762,7 @@ class C12(ProcProp):
         ctx.search_note = "direct oracle over %d process runs" % ctx.evaluations
         # correspondence: the real parser vs Model/CliParse.v; the real process vs Model/CliGlue.v::real_cli_main
         parse_correspondence(ctx)
-        model_cli_part(ctx, lambda ctx, mw, root: c12_model_cases(ctx, mw))
+        model_cli_part(ctx, lambda ctx, mw, root: c12_model_cases(ctx, mw) + c12_target_model_cases(ctx, mw))
 
     def one(self, w, j):
         out = "out_%d" % j["i"]
@@ -2723,6 +2870,221 @@ class C12(ProcProp):
                               "messages": list(r0["run"].error_lines())})
 
 
+    # ---- output targets: WHAT the result is written to (regular file, device, pipe, FIFO, link, terminal, redirected stdout)
+    TARGETS = ["regular-absent", "regular-existing", "regular-existing-longer", "absolute-path", "existing-subdirectory", "dev-null",
+               "dev-stdout-pipe", "proc-self-fd-1-pipe", "fifo-with-reader", "plain-stdout-pipe", "stdout-to-file", "stdout-appending-to-file",
+               "dev-stdout-to-file", "symlink-to-absent", "symlink-to-existing", "symlink-to-dev-null", "pty-slave-raw"]
+    TO_STDOUT = ("dev-stdout-pipe", "proc-self-fd-1-pipe", "plain-stdout-pipe")
+
+    def targets_part(self, ctx, w):
+        """the same operation with its output sent to every kind of target: exit status, stderr and the bytes that ARRIVE at the
+        target (read back from the file / the link's target / the reader of the FIFO, pipe or terminal) must be those of the run
+        that writes a new regular file: exit 0 exactly when the complete output arrived."""
+        rng = ctx.rng
+        P = w.P
+        A, B = w.pw["alice"], w.pw["bob"]
+        rnd = ctx.rbytes(64)
+        inj = lambda n: {"KESTREL_VERIF_RANDOM": rnd[:n].hex()}
+        krs = rng.choice(["kr_first", "kr_last", "kr_full"])
+        D = lambda f, kr=krs: ["dec" if rng.random() < 0.3 else "decrypt", f, "-t", "bob", "-k", kr, "--env-pass"]
+        PD = lambda f: ["password", "decrypt", f, "--env-pass"]
+        E = lambda f, to="bob": ["encrypt", f, "-t", to, "-f", "alice", "-k", "kr_full", "--env-pass"]
+        PE = lambda f: ["pass", "enc", f, "--env-pass"]
+        # (name, argv, env, succeeds, bytes that must arrive (None: those of the reference run), plaintext of an encryption)
+        ops = [("decrypt valid-small", D("ct_small"), env_pw(B), True, P["small"], None),
+               ("decrypt valid-big (two chunks)", D("ct_big"), env_pw(B), True, P["big"], None),
+               ("decrypt valid-empty", D("ct_empty"), env_pw(B), True, b"", None),
+               ("decrypt valid-small, sender not in the keyring", D("ct_small", "kr_absent"), env_pw(B), True, P["small"], None),
+               ("decrypt bad-chunk2", D("ct_bad2"), env_pw(B), False, P["big"][:CHUNK], None),
+               ("decrypt bad-chunk1", D("ct_bad1"), env_pw(B), False, b"", None),
+               ("password decrypt valid-small", PD("pct_small"), env_pw(w.passpw), True, P["small"], None),
+               ("password decrypt valid-big (two chunks)", PD("pct_big"), env_pw(w.passpw), True, P["big"], None),
+               ("password decrypt valid-empty", PD("pct_empty"), env_pw(w.passpw), True, b"", None),
+               ("password decrypt wrong-password", PD("pct_small"), env_pw(b"other"), False, b"", None),
+               ("password decrypt truncated second chunk", PD("pct_trunc2"), env_pw(w.passpw), False, P["big"][:CHUNK], None),
+               ("encrypt small", E("pt_small"), dict(env_pw(A), **inj(64)), True, None, P["small"]),
+               ("encrypt big (two chunks)", E("pt_big"), dict(env_pw(A), **inj(64)), True, None, P["big"]),
+               ("encrypt empty", E("pt_empty"), dict(env_pw(A), **inj(64)), True, None, b""),
+               ("encrypt unknown-recipient", E("pt_small", "nobody"), dict(env_pw(A), **inj(64)), False, b"", None),
+               ("password encrypt small", PE("pt_small"), dict(env_pw(w.passpw), **inj(32)), True, None, P["small"]),
+               ("password encrypt big (two chunks)", PE("pt_big"), dict(env_pw(w.passpw), **inj(32)), True, None, P["big"])]
+        if ctx.thorough():
+            for k in ("zeros", "zerotail", "zeros2", "zerohead", "zeromid"):
+                ops.append(("decrypt valid-" + k, D("ct_" + k), env_pw(B), True, P[k], None))
+                ops.append(("password decrypt valid-" + k, PD("pct_" + k), env_pw(w.passpw), True, P[k], None))
+        jobs = []
+        for (name, argv, env, ok, want, plain) in ops:
+            for t in self.TARGETS:
+                if not ok and want == b"" and t in ("regular-existing", "regular-existing-longer", "symlink-to-existing"):
+                    continue          # a failure before any output leaves the existing file alone: C13
+                if want is not None:
+                    nbytes = len(want)
+                else:
+                    nbytes = (HDR if argv[0] == "encrypt" else PHDR) + 32 * (len(plain) // CHUNK + 1) + len(plain)
+                jobs.append({"op": name, "argv": argv, "env": env, "ok": ok, "want": want, "plain": plain, "target": t, "nbytes": nbytes,
+                             "spell": rng.choice(["long", "short", "eq", "dash1"])})
+        for i, j in enumerate(jobs):
+            j["i"] = i
+        res = self.pmap(lambda j: self.target_one(w, j), jobs)
+        ref = {}
+        for j, r in zip(jobs, res):
+            if j["target"] == "regular-absent":
+                ref[j["op"]] = r
+        for j, r in zip(jobs, res):
+            run, r0 = r["run"], ref[j["op"]]
+            self.count(ctx, ("target-not-available:" if r.get("skipped") else "target:") + j["target"])
+            sc = "C12 output target %s: %s" % (j["target"], j["op"])
+            want = j["want"] if j["want"] is not None else r0["arrived"]
+            runs = [run] if r is r0 else [r0["run"], run]
+            if j["plain"] is not None and r is r0:
+                self.judge(ctx, r.get("dec_rc") == 0 and r.get("dec_plain") == j["plain"], sc, [run], "what was encrypted into a new regular file "
+                           "decrypts to the original %d bytes" % len(j["plain"]), "decrypt exit %r, equal: %s" % (r.get("dec_rc"), r.get("dec_plain") == j["plain"]))
+            if r.get("skipped"):
+                continue
+            arrived = r["arrived"]
+            complete = j["ok"] and (arrived is None or arrived == want)
+            self.judge(ctx, run.rc == (0 if j["ok"] else 1) and (run.rc == 0) == complete, sc, runs,
+                       "exit %d: the status says whether the complete output (%d bytes) arrived, whatever kind of file it is written to"
+                       % (0 if j["ok"] else 1, len(want or b"")),
+                       "exit %d, %s arrived; stderr %r" % (run.rc, "unobservable" if arrived is None else "%d bytes (%s)" % (
+                           len(arrived), "the expected ones" if arrived == want else "first difference at %s" % first_diff(arrived, want or b"")),
+                           run.errtext()[-200:]))
+            if arrived is not None:
+                self.judge(ctx, arrived == want, sc, runs, "the bytes that arrive at the target are the %d bytes a new regular file receives" % len(want or b""),
+                           "%d bytes, first difference at %s" % (len(arrived), first_diff(arrived, want or b"")))
+            self.judge(ctx, run.err == r0["run"].err, sc, runs, "stderr is the one of the run that writes a new regular file: %r" % r0["run"].errtext()[-200:],
+                       "stderr %r" % run.errtext()[-300:])
+            self.judge(ctx, r["stray"] == b"", sc, runs, "nothing is written to stdout when the output goes elsewhere", "stdout %r" % r["stray"][:60])
+            if r.get("note"):
+                self.judge(ctx, False, sc, runs, "the target is written to and stays what it was", r["note"])
+
+    def target_one(self, w, j):
+        import pty, tty
+        sub = "tg_%d" % j["i"]
+        d = w.p(sub)
+        os.mkdir(d)
+        rel = lambda n: os.path.join(sub, n)
+        kind = j["target"]
+        oarg, so, drain, fds, note = None, "pipe", None, [], None
+        HEAD = b"what the log held before\n"
+
+        def mk(n, data):
+            with open(os.path.join(d, n), "wb") as f:
+                f.write(data)
+        try:
+            if kind in ("regular-absent", "regular-existing", "regular-existing-longer"):
+                oarg = rel("out")
+                if kind != "regular-absent":
+                    mk("out", SENTINEL * (2000 if kind.endswith("longer") else 1))
+            elif kind == "absolute-path":
+                oarg = os.path.join(d, "out")
+            elif kind == "existing-subdirectory":
+                os.mkdir(os.path.join(d, "sub"))
+                oarg = rel("sub/out")
+            elif kind == "dev-null":
+                oarg = "/dev/null"
+            elif kind == "dev-stdout-pipe":
+                oarg = "/dev/stdout"
+            elif kind == "proc-self-fd-1-pipe":
+                oarg = "/proc/self/fd/1"
+            elif kind == "fifo-with-reader":
+                os.mkfifo(os.path.join(d, "out"))
+                drain = os.open(os.path.join(d, "out"), os.O_RDONLY | os.O_NONBLOCK)
+                fds.append(drain)
+                oarg = rel("out")
+            elif kind == "plain-stdout-pipe":
+                pass
+            elif kind == "stdout-to-file":
+                so = open(os.path.join(d, "out"), "wb")
+            elif kind == "stdout-appending-to-file":
+                mk("out", HEAD)
+                so = open(os.path.join(d, "out"), "ab")
+            elif kind == "dev-stdout-to-file":
+                so = open(os.path.join(d, "out"), "wb")
+                oarg = "/dev/stdout"
+            elif kind in ("symlink-to-absent", "symlink-to-existing"):
+                if kind.endswith("existing"):
+                    mk("target", SENTINEL * 2000)
+                os.symlink("target", os.path.join(d, "out"))
+                oarg = rel("out")
+            elif kind == "symlink-to-dev-null":
+                os.symlink("/dev/null", os.path.join(d, "out"))
+                oarg = rel("out")
+            elif kind == "pty-slave-raw":
+                try:
+                    m, s = pty.openpty()
+                    fds += [m, s]
+                    tty.setraw(s)
+                    os.set_blocking(m, False)
+                    drain = m
+                    oarg = os.ttyname(s)
+                except Exception:                       # no pseudo-terminals in this environment
+                    return {"skipped": True, "run": None}
+            else:
+                raise ValueError(kind)
+            argv = j["argv"] + (opt(j["spell"], "output", oarg) if oarg else [])
+            # (the terminal case stays in the caller's session: a session leader that opens a terminal would make it its controlling one)
+            run, drained = kvc_run(w, argv, env=j["env"], stdout=so, drain_fd=drain, new_session=(kind != "pty-slave-raw"),
+                                   settle=(0.5 if kind == "pty-slave-raw" else 0.0))
+            if kind == "pty-slave-raw" and len(drained) < j["nbytes"]:
+                # what the program wrote to the terminal is still on its way to the master side: wait for it (bounded)
+                import select, time
+                t_end = time.time() + 8
+                while len(drained) < j["nbytes"] and time.time() < t_end:
+                    if select.select([drain], [], [], 0.2)[0]:
+                        try:
+                            drained += os.read(drain, 1 << 16)
+                        except OSError:
+                            pass
+            if so != "pipe":
+                so.close()
+
+            def rd(n):
+                try:
+                    with open(os.path.join(d, n), "rb") as f:
+                        return f.read()
+                except OSError:
+                    return None
+            stray = run.out if (so == "pipe" and kind not in self.TO_STDOUT) else b""
+            if kind in ("dev-null", "symlink-to-dev-null"):
+                arrived = None
+            elif kind in self.TO_STDOUT:
+                arrived = run.out
+            elif kind in ("fifo-with-reader", "pty-slave-raw"):
+                arrived = drained
+            elif kind == "stdout-appending-to-file":
+                c = rd("out") or b""
+                arrived = c[len(HEAD):] if c.startswith(HEAD) else c
+                if not c.startswith(HEAD):
+                    note = "the file stdout appends to lost its earlier content"
+            elif kind.startswith("symlink-to-"):
+                arrived = rd("target") or b""
+                p = os.path.join(d, "out")
+                if not (os.path.islink(p) and os.readlink(p) == "target"):
+                    note = "the symbolic link named by -o was replaced"
+            elif kind == "existing-subdirectory":
+                arrived = rd("sub/out") or b""
+            else:
+                arrived = rd("out") or b""
+            if kind == "symlink-to-dev-null" and not os.path.islink(os.path.join(d, "out")):
+                note = "the symbolic link named by -o was replaced"
+            res = {"run": run, "arrived": arrived, "stray": stray, "note": note}
+            if j["plain"] is not None and kind == "regular-absent" and run.rc == 0:
+                if j["argv"][0] == "encrypt":
+                    q = w.run(["decrypt", rel("out"), "-t", "bob", "-o", rel("pt"), "-k", "kr_full", "--env-pass"], env=env_pw(w.pw["bob"]))
+                else:
+                    q = w.run(["password", "decrypt", rel("out"), "-o", rel("pt"), "--env-pass"], env=env_pw(w.passpw))
+                res["dec_rc"], res["dec_plain"] = q.rc, rd("pt")
+            return res
+        finally:
+            for fd in fds:
+                try:
+                    os.close(fd)
+                except OSError:
+                    pass
+            shutil.rmtree(d, ignore_errors=True)
+
+
 def first_diff(a, b):
     for i, (x, y) in enumerate(zip(a, b)):
         if x != y:
@@ -2736,6 +3098,76 @@ props.REGISTRY[C12.id] = C12()
 # =========================================================================== C13
 SENTINEL = b"PRECIOUS sentinel content that must survive\n" * 3
 
+# shapes of the output LOCATION of a failing run (C13 whole-tree part).  family -> members; every member prepares the run's
+# private directory d and returns the -o argument.  "present" members put SENTINEL where the bytes would land.
+C13_SHAPES = {
+    "missing-parent": ["nd/out", "nd/a/b/out", "ABS/nd/out", "nd/../out", "sub/nd/out", "./nd/./out"],
+    "plain": ["absent", "sentinel", "subdir-absent", "subdir-sentinel", "absolute-absent", "absolute-sentinel"],
+    "indirect": ["symlink-to-file", "dangling-symlink", "dangling-symlink-into-missing-dir", "parent-is-symlink-to-dir",
+                 "symlink-to-symlink-to-file"],
+    "special": ["directory", "fifo-without-reader", "parent-is-a-file", "empty-directory-with-slash"],
+}
+
+
+def c13_prepare_shape(shape, d):
+    """-> (the -o argument, relative path of the regular file the bytes would land in | None)"""
+    def mk(rel, data=SENTINEL):
+        with open(os.path.join(d, rel), "wb") as f:
+            f.write(data)
+    if shape in ("nd/out", "nd/a/b/out", "nd/../out", "./nd/./out"):
+        return shape, None
+    if shape == "ABS/nd/out":
+        return os.path.join(d, "nd", "out"), None
+    if shape == "sub/nd/out":
+        os.mkdir(os.path.join(d, "sub"))
+        return shape, None
+    if shape == "absent":
+        return "out", "out"
+    if shape == "sentinel":
+        mk("out")
+        return "out", "out"
+    if shape in ("subdir-absent", "subdir-sentinel"):
+        os.mkdir(os.path.join(d, "sub"))
+        if shape.endswith("sentinel"):
+            mk("sub/out")
+        return "sub/out", "sub/out"
+    if shape in ("absolute-absent", "absolute-sentinel"):
+        if shape.endswith("sentinel"):
+            mk("out")
+        return os.path.join(d, "out"), "out"
+    if shape == "symlink-to-file":
+        mk("target")
+        os.symlink("target", os.path.join(d, "out"))
+        return "out", "target"
+    if shape == "symlink-to-symlink-to-file":
+        mk("target")
+        os.symlink("target", os.path.join(d, "mid"))
+        os.symlink("mid", os.path.join(d, "out"))
+        return "out", "target"
+    if shape == "dangling-symlink":
+        os.symlink("target", os.path.join(d, "out"))
+        return "out", "target"
+    if shape == "dangling-symlink-into-missing-dir":
+        os.symlink("nd/target", os.path.join(d, "out"))
+        return "out", None
+    if shape == "parent-is-symlink-to-dir":
+        os.mkdir(os.path.join(d, "real"))
+        os.symlink("real", os.path.join(d, "ln"))
+        return "ln/out", "real/out"
+    if shape == "directory":
+        os.mkdir(os.path.join(d, "out"))
+        return "out", None
+    if shape == "empty-directory-with-slash":
+        os.mkdir(os.path.join(d, "sub"))
+        return "sub/", None
+    if shape == "fifo-without-reader":
+        os.mkfifo(os.path.join(d, "out"))
+        return "out", None
+    if shape == "parent-is-a-file":
+        mk("f")
+        return "f/out", None
+    raise ValueError(shape)
+
 
 class C13(ProcProp):
     id = "C13"
@@ -2746,7 +3178,13 @@ class C13(ProcProp):
             "data after the last chunk, input paths without a final component, refused key exchange with a low-order public key on either side, invalid key name) x output path {absent, present "
             "with sentinel content}; quick: base wiring + 1 random wiring, thorough: + 6 random wirings (stdin input, aliases, "
             "option spellings, keyring by environment); later-chunk failures (damaged / truncated second chunk): the path holds "
-            "exactly the first 65536 plaintext bytes; non-trivial = every run")
+            "exactly the first 65536 plaintext bytes; whole-tree part: every cause again in a private working directory (= HOME) whose "
+            "COMPLETE tree (files with content hashes, directories, symbolic links, FIFOs) is snapshotted before and after, for 21 shapes of "
+            "the output location {parent directories that do not exist: 1 level, 3 levels, absolute, via '..' / '.', below an existing "
+            "directory; plain / sub-directory / absolute, absent and present; symbolic link to a file, dangling, chained, into a missing "
+            "directory, as the parent; a directory, a FIFO, a file as the parent, a directory with trailing slash} (quick: 5 shapes per "
+            "cause, thorough: all), later-chunk failures through links and sub-directories; 8 (quick) missing-parent runs against the CLI "
+            "model; non-trivial = every run")
     assumptions = ["all causes x wirings are judged by direct oracles; one run per failure-cause class x {absent, sentinel} is compared with the "
                    "CLI model (exit code, message class, stdout, content of the output path)",
                    "later-chunk failures (files over 64 KiB) are not evaluated in the model: too large for vm_compute"]
@@ -3018,6 +3456,9 @@ class C13(ProcProp):
                 if os.environ.get("VERIF_DUMP"):
                     with open(os.environ["VERIF_DUMP"], "a") as f:
                         f.write("%s | exit %d | %r | %s\n" % (sc, run.rc, run.errtext()[-150:], " ".join(run.argv)[:200]))
+            t_tr = time.time()
+            self.tree_part(ctx, w)
+            ctx.distribution["seconds:whole-tree-part"] = round(time.time() - t_tr, 1)
             ctx.evaluations += w.nruns
             self.count(ctx, "proc:runs", w.nruns)
         finally:
@@ -3045,6 +3486,88 @@ class C13(ProcProp):
         except OSError:
             pass
         return run, before, after
+
+    # ---- whole-tree part: every failing run in a PRIVATE working directory (= HOME) that is snapshotted completely
+    def tree_part(self, ctx, w):
+        """'no new file is created, a file already present is left intact' judged on the WHOLE directory tree of the run (files,
+        directories, symlinks, sizes, content hashes), for output locations of every shape: parent directories that do not
+        exist (one level, several, absolute, through '..'), sub-directories, symbolic links (to a file, dangling, chained, as the
+        parent), a directory / FIFO / file-as-parent at the path.  Later-chunk failures: the bytes reachable through the -o
+        path are exactly the authenticated prefix, also through links."""
+        rng = ctx.rng
+        wir = [c for c in all_wirings(True) if c["out"] == "o"]
+        fams = C13_SHAPES
+        jobs = []
+        for (cmd, cause, build, wired) in self.causes(w):
+            if ctx.thorough():
+                shapes = [s for f in fams.values() for s in f]
+            else:
+                shapes = rng.sample(fams["missing-parent"], 2) + rng.sample(fams["indirect"] + fams["special"], 2) + [rng.choice(fams["plain"])]
+            for sh in shapes:
+                cfg = rng.choice(wir) if wired and rng.random() < 0.5 else BASE_WIRING
+                if not wired:
+                    cfg = dict(cfg, inp="arg")
+                jobs.append({"cmd": cmd, "cause": cause, "build": build, "cfg": cfg, "shape": sh, "later": None})
+        landing = ["absent", "sentinel", "subdir-absent", "subdir-sentinel", "absolute-sentinel", "symlink-to-file", "dangling-symlink",
+                   "symlink-to-symlink-to-file", "parent-is-symlink-to-dir"]
+        for cmd, f, pw, to in (("decrypt", "ct_bad2", w.pw["bob"], "bob"), ("decrypt", "ct_trunc2", w.pw["bob"], "bob"),
+                               ("pass-decrypt", "pct_bad2", w.passpw, None), ("pass-decrypt", "pct_trunc2", w.passpw, None),
+                               ("decrypt", "ct_big_x1", w.pw["bob"], "bob"), ("pass-decrypt", "pct_big_xr", w.passpw, None)):
+            for sh in (landing if ctx.thorough() else rng.sample(landing, 3)):
+                def build(o, cfg, cmd=cmd, f=f, pw=pw, to=to):
+                    return wire(cmd, cfg, f, o, to=to, keyring="kr_full" if to else None, pw=pw)
+                jobs.append({"cmd": cmd.replace("pass-", "password "), "cause": "later-chunk:" + f, "build": build,
+                             "cfg": rng.choice(wir) if rng.random() < 0.5 else BASE_WIRING, "shape": sh, "later": w.P["big"][:CHUNK]})
+        for i, j in enumerate(jobs):
+            j["i"] = i
+        res = self.pmap(lambda j: self.tree_one(w, j), jobs)
+        for j, (run, before, after, oarg, land, through) in zip(jobs, res):
+            self.count(ctx, "tree-shape:" + j["shape"])
+            self.count(ctx, "tree-cause:%s:%s" % (j["cmd"], j["cause"].split(":")[0]))
+            sc = "C13 whole tree: %s, cause %s, output location '%s' (-o %s), wiring %s" % (j["cmd"], j["cause"], j["shape"], oarg, wname(j["cfg"]))
+            self.judge(ctx, run.rc == 1 and "Error: " in run.errtext(), sc, [run], "the command fails: exit 1 with an Error: message",
+                       "exit %d, stderr %r" % (run.rc, run.errtext()[-200:]))
+            if j["later"] is None:
+                diff = kvc_tree_diff(before, after)
+                self.judge(ctx, not diff, sc, [run],
+                           "nothing is created and nothing present is altered: the run's whole directory tree (%d entries: files with "
+                           "their bytes, directories, links) is the same after the failed command" % len(before),
+                           "; ".join(diff[:8]))
+            else:
+                want = ("file", len(j["later"]), hashlib.sha256(j["later"]).hexdigest())
+                self.judge(ctx, through == j["later"] and after.get(land) == want, sc, [run],
+                           "the output path holds exactly the authenticated prefix (first 65536 plaintext bytes), in the file the path leads to (%s)" % land,
+                           "through the path: %s; tree changes: %s" % ("unreadable" if through is None else "%d bytes, first difference at %s"
+                                                                       % (len(through), first_diff(through, j["later"])),
+                                                                       "; ".join(kvc_tree_diff(before, after)[:6])))
+                if j["shape"].startswith(("symlink", "dangling")):
+                    self.judge(ctx, after.get("out") == before.get("out"), sc, [run], "the link named by -o is still the same link",
+                               "%r -> %r" % (before.get("out"), after.get("out")))
+            if j["i"] % 60 == 0:
+                self.sample(ctx, {"scenario": sc, "exit": run.rc, "tree_entries": len(before), "stderr": run.errtext()[-120:]})
+
+    def tree_one(self, w, j):
+        d = w.p("tw_%d" % j["i"])
+        os.mkdir(d)
+        try:
+            oarg, land = c13_prepare_shape(j["shape"], d)
+            argv, env, stdin = j["build"](oarg, j["cfg"])
+            if isinstance(stdin, tuple) and not os.path.exists(w.p(stdin[1])):
+                stdin = None
+            kvc_link_inputs(w, d, argv, env)
+            before = kvc_tree_snapshot(d)
+            run, _ = kvc_run(w, argv, env=env, stdin=stdin, cwd=d, timeout=90)
+            after = kvc_tree_snapshot(d)
+            through = None
+            if j["later"] is not None:
+                try:
+                    with open(os.path.join(d, oarg), "rb") as f:
+                        through = f.read()
+                except OSError:
+                    through = None
+            return run, before, after, (oarg if not os.path.isabs(oarg) else "<run dir>" + oarg[len(d):]), land, through
+        finally:
+            shutil.rmtree(d, ignore_errors=True)
 
 
 props.REGISTRY[C13.id] = C13()
@@ -3437,7 +3960,7 @@ def exec_cli_cases(cases, root):
                 with open(p, "rb") as f:
                     after[nm] = f.read()
         code, text = classify_run(c.a["argv"], rc, out, err, help_txt, ver_txt)
-        stray = sorted(set(after) - set(c.a["watch"]))
+        stray = sorted(set(after) - set(c.a["watch"])) + kvc_stray_entries(d)
         if rc < 0:
             rc = 1000 - rc          # killed by signal -rc
         c.result = {"id": None, "code": code, "outcome": "exit%d:class%d" % (rc, code), "out": out, "consumed": rc, "trace": [],
@@ -3447,6 +3970,16 @@ def exec_cli_cases(cases, root):
         shutil.rmtree(d, ignore_errors=True)
     with ThreadPoolExecutor(max_workers=NPROC) as ex:
         list(ex.map(one, list(enumerate(cases))))
+
+
+def kvc_stray_entries(d):
+    """what a run directory holds besides regular files at its top level (directories, links, anything nested): the program
+    never creates such entries, and the files of a case are all top-level regular files"""
+    out = []
+    for rel, e in sorted(kvc_tree_snapshot(d).items()):
+        if e[0] != "file" or os.sep in rel:
+            out.append(rel + ("/" if e[0] == "dir" else " (%s)" % e[0] if e[0] != "file" else ""))
+    return out
 
 
 def no_stray(r):
@@ -3578,6 +4111,76 @@ def c12_model_cases(ctx, mw):
     return cases
 
 
+C12_MODEL_TARGETS = ["dev-null", "dev-stdout-pipe", "proc-self-fd-1-pipe", "fifo-with-reader", "stdout-to-file", "dev-stdout-to-file",
+                     "symlink-to-absent", "regular-existing", "absolute-path", "existing-subdirectory", "symlink-to-dev-null"]
+
+
+def c12_target_model_cases(ctx, mw):
+    """the CLI model knows one kind of output file (a name in a flat world) and stdout.  Here the REAL run sends its output to
+    another kind of target (device, pipe, FIFO with a reader, link, redirected stdout) while the model is evaluated on the
+    plain wiring (-o out, or stdout): it must predict the exit status, the message class and the bytes that ARRIVE at the
+    target, because the result does not depend on how the output is wired.  The cases come back executed."""
+    rng = ctx.rng
+    ops = [("decrypt valid", "decrypt", "in.ct", mw.ct, {"kr": mw.kr["first"]}, "bob", None, mw.pw["bob"], b""),
+           ("decrypt valid, sender absent", "decrypt", "in.ct", mw.ct, {"kr": mw.kr["absent"]}, "bob", None, mw.pw["bob"], b""),
+           ("decrypt bad-chunk1", "decrypt", "in.ct", mw.ct_bad1, {"kr": mw.kr["last"]}, "bob", None, mw.pw["bob"], b""),
+           ("decrypt wrong-password", "decrypt", "in.ct", mw.ct, {"kr": mw.kr["full"]}, "bob", None, b"not the password", b""),
+           ("password decrypt valid", "pass-decrypt", "in.ct", mw.pct, {}, None, None, mw.passpw, b""),
+           ("password decrypt wrong-password", "pass-decrypt", "in.ct", mw.pct, {}, None, None, b"other", b""),
+           ("encrypt", "encrypt", "pt", mw.plain, {"kr": mw.kr["full"]}, "bob", "alice", mw.pw["alice"], ctx.rbytes(64)),
+           ("password encrypt", "pass-encrypt", "pt", mw.plain, {}, None, None, mw.passpw, ctx.rbytes(32))]
+    combos = [(op, t) for t in C12_MODEL_TARGETS for op in ops]
+    if not ctx.thorough():
+        combos = [(rng.choice(ops[:2] + ops[4:5] + ops[6:]), t) for t in C12_MODEL_TARGETS] + [(rng.choice(ops[2:4] + ops[5:6]), rng.choice(C12_MODEL_TARGETS)) for _ in range(2)]
+    cases = []
+    for (lbl, cmd, infile, data, files, to, frm, pw, rnd), t in combos:
+        spell = rng.choice(["long", "short", "eq", "dash1"])
+        cfg = {"inp": "arg", "out": "stdout", "kr": "k", "spell": spell, "alias": rng.random() < 0.5, "first": True}
+        argv, env, _ = wire(cmd, cfg, infile, None, to=to, frm=frm, keyring="kr" if to else None, pw=None)
+        to_stdout = t == "stdout-to-file"
+        fs = dict(files)
+        fs[infile] = data
+        pre = SENTINEL if t == "regular-existing" else None
+        if pre is not None:
+            fs["out"] = pre
+        c = CliCase("%s, real output target %s" % (lbl, t), argv + ([] if to_stdout else opt(spell, "output", "out")), fs, pw=pw, rnd=rnd,
+                    watch=[], tags=["model:output-target-" + t])
+        c.a["watch"] = [] if (to_stdout or "dev-null" in t) else ["out"]
+        c.a["target"], c.a["real_argv"], c.a["spell"] = t, argv, spell
+        cases.append(c)
+    help_txt, ver_txt = cli_texts()
+    prop = props.REGISTRY["C12"]
+
+    def one(ic):
+        i, c = ic
+        w = World(prefix="kv_tgm_")
+        try:
+            for k, v in c.files().items():
+                if not (k == "out" and c.a["target"] == "regular-existing"):
+                    w.write(k, v)
+            r = prop.target_one(w, {"i": i, "argv": c.a["real_argv"], "env": c.env(), "target": c.a["target"], "spell": c.a["spell"],
+                                    "plain": None, "nbytes": 0})
+        finally:
+            w.close()
+        run, arrived = r["run"], r["arrived"]
+        code, text = classify_run(run.argv, run.rc, run.out, run.err, help_txt, ver_txt)
+        rc = run.rc if run.rc >= 0 else 1000 - run.rc
+        if c.a["target"] == "stdout-to-file":
+            out, after = arrived, {}
+        else:
+            out = r["stray"]
+            # the model's "file out exists": something arrived, or the run succeeded (an empty output still creates its file);
+            # a failed run onto an existing file leaves its content (read back through the path)
+            after = {"out": arrived} if (arrived is not None and (rc == 0 or arrived != b"")) else {}
+        c.result = {"id": None, "code": code, "outcome": "exit%d:class%d" % (rc, code), "out": out, "consumed": rc, "trace": [],
+                    "extra": render_paths(after, c.a["watch"]) + text, "entries": None, "msg": "", "after": after, "stray": [],
+                    "raw": "exit=%d class=%d target=%s arrived=%s stderr=%r note=%r" % (rc, code, c.a["target"], "?" if arrived is None else len(arrived),
+                                                                                 run.errtext()[-200:], r.get("note"))}
+    with ThreadPoolExecutor(max_workers=NPROC) as ex:
+        list(ex.map(one, list(enumerate(cases))))
+    return cases
+
+
 def c13_model_cases(ctx, mw):
     zero, low8 = cli_ops(["pk_encode " + "00" * 32, "pk_encode e0eb7a7c3b41b8ae1656e3faf19fc46ada098deb9c32b1fd866205165f49b800"])
     bad = bytearray(mw.dave_pub)
@@ -3657,6 +4260,25 @@ def c13_model_cases(ctx, mw):
                 return no_stray(r)
             cases.append(CliCase("%s, output path %s" % (cls, "absent" if pre is None else "sentinel"), argv, fs, pw=pw, stdin=sin, rnd=rnd,
                                  watch=["out"], tags=["model:" + cls.split(":")[0]], oracle=untouched))
+    # the same failures with an -o path whose parent directories do not exist: the model's world is unchanged (nothing is created:
+    # the run directory must afterwards hold its files and NOTHING else, no directory either)
+    deep = ["nd/out", "nd/a/b/out", "nd/../out", "./nd/./out"]
+    for (cls, argv, over, pw, sin, rnd) in (L if ctx.thorough() else ctx.rng.sample(L, 8)):
+        o = ctx.rng.choice(deep)
+        if "out" not in argv:
+            continue
+        fs = dict(base)
+        fs.update(over)
+
+        def nothing(r, o=o):
+            if r["consumed"] != 1:
+                return ("the command fails with exit 1", "exit %d" % r["consumed"])
+            if r.get("stray"):
+                return ("a failed command creates nothing, whatever the shape of the -o path (%s): no file, no directory" % o,
+                        "new entries %r" % r["stray"])
+            return None
+        cases.append(CliCase("%s, output path %s (no such directory)" % (cls, o), sub(argv, "out", o), fs, pw=pw, stdin=sin, rnd=rnd,
+                             watch=[o], tags=["model:missing-parent-directory"], oracle=nothing))
     return cases
 
 
